@@ -183,6 +183,12 @@ impl Lifecycle {
         self.resume_lc.is_some()
     }
 
+    /// verification hook: id of the lifecycle this one was detected as a resume of
+    #[cfg(feature = "verif_hooks")]
+    pub fn verif_resume_origin(&self) -> Option<LifecycleId> {
+        self.resume_lc.as_ref().map(|r| r.id)
+    }
+
     /// create a new lifecycle with the first msg passed as parameter
     pub fn new(msg: &mut DltMessage) -> Lifecycle {
         // println!("new lifecycle created by {:?}", msg);
@@ -595,6 +601,8 @@ where
         >,
          last_lcw_refresh_index: &mut u32| {
             if force_refresh || last_regular_refresh_index + 100_000 < last_msg_index {
+                #[cfg(feature = "verif_hooks")]
+                crate::verif::hit(crate::verif::Point::LcRegularRefresh);
                 // update all marked lifecycles:
                 let mut nr_lcs_to_update = lcs_to_refresh.len();
                 for vs in ecu_map.values() {
@@ -665,6 +673,8 @@ where
                                 // the buffered lcs shall be merged again (so lc2 is invalid afterwards)
                                 // todo this is cpu intensive/expensive. try to reduce the likelyhood.
                                 // this is easy now:
+                                #[cfg(feature = "verif_hooks")]
+                                { crate::verif::hit(crate::verif::Point::LcMergeBuffered); }
                                 prev_lc.merge(lc2);
                                 msg.lifecycle = prev_lc.id;
                                 // and now update the buffered msgs:
@@ -706,6 +716,8 @@ where
                                     .count()
                                     + 1;
                                 if nr_buffered_msgs == lc2_msgs {
+                                    #[cfg(feature = "verif_hooks")]
+                                    { crate::verif::hit(crate::verif::Point::LcMergeUnbuffered); }
                                     prev_lc.merge(lc2);
                                     msg.lifecycle = prev_lc.id;
                                     let mut moved_msgs = 1;
@@ -727,6 +739,8 @@ where
                                     }
                                     remove_last_lc = true;
                                 } else {
+                                    #[cfg(feature = "verif_hooks")]
+                                    { crate::verif::hit(crate::verif::Point::LcMergeSkipped); }
                                     // TODO silence this output for now! (fails e.g. with l./e./230726_dltp logs!) println!("merge needed but not all msgs buffered anymore! (todo!):\n {:?}\n {:?} msg #{}", prev_lc, lc2, last_msg_index);
                                     // we keep the lc2 for now and buffer the msgs
                                     // todo, needed? buffered_lcs.insert(lc2.id);
@@ -767,6 +781,8 @@ where
                             last_lc_id = msg_lc;
                             mark_lc_id_to_refresh(msg_lc, &mut lcs_to_refresh);
                         }
+                        #[cfg(feature = "verif_hooks")]
+                        { crate::verif::hit(crate::verif::Point::LcOutMergeFlush); crate::verif::pause(crate::verif::Point::LcOutMergeFlush); }
                         if let Err(e) = outflow(msg) {
                             println!(
                                 "parse_lifecycles_buffered_from_stream .send 4 got err={}",
@@ -842,6 +858,8 @@ where
                                 } else {
                                     println!("confirmed buffered lc as >max_buffering_delay, confirmed lc={:?}", lc);
                                 }*/
+                                #[cfg(feature = "verif_hooks")]
+                                { crate::verif::hit(crate::verif::Point::LcConfirm); }
                                 buffered_lcs.remove(&lc.id);
                                 /*println!("remaining buffered_lcs={}", buffered_lcs.len());
                                 for lc in &buffered_lcs {
@@ -849,6 +867,8 @@ where
                                 }*/
                                 // lc update due to rule #1:
                                 lcs_w.update(lc.id, new_lifecycle_item(lc, last_lcw_refresh_index));
+                                #[cfg(feature = "verif_hooks")]
+                                { crate::verif::hit(crate::verif::Point::LcBetweenUpdateRefresh); crate::verif::pause(crate::verif::Point::LcBetweenUpdateRefresh); }
                                 lcs_w.refresh();
                                 last_lcw_refresh_index += 1;
 
@@ -859,6 +879,8 @@ where
                                     let msg_lc = buffered_msgs[0].lifecycle;
                                     if msg_lc == prune_lc_id {
                                         let msg = buffered_msgs.pop_front().unwrap(); // .remove(0);
+                                        #[cfg(feature = "verif_hooks")]
+                                        { crate::verif::hit(crate::verif::Point::LcOutConfirmOwn); crate::verif::pause(crate::verif::Point::LcOutConfirmOwn); }
                                         if let Err(e) = outflow(msg) {
                                             println!("parse_lifecycles_buffered_from_stream .send 1 got err={}", e);
                                             break; // exit. the receiver has stopped
@@ -873,6 +895,8 @@ where
 
                                         // send that msg right away: (code duplication, might as well just wait one iteration)
                                         let msg = buffered_msgs.pop_front().unwrap(); // .remove(0);
+                                        #[cfg(feature = "verif_hooks")]
+                                        { crate::verif::hit(crate::verif::Point::LcOutConfirmOther); crate::verif::pause(crate::verif::Point::LcOutConfirmOther); }
                                         if let Err(e) = outflow(msg) {
                                             println!("parse_lifecycles_buffered_from_stream .send 2 got err={}", e);
                                             break;
@@ -908,6 +932,8 @@ where
                 &ecu_map,
                 &mut last_lcw_refresh_index,
             );
+            #[cfg(feature = "verif_hooks")]
+            { crate::verif::hit(crate::verif::Point::LcOutDirect); crate::verif::pause(crate::verif::Point::LcOutDirect); }
             if let Err(e) = outflow(msg) {
                 println!(
                     "parse_lifecycles_buffered_from_stream .send 3 got err={}",
@@ -918,6 +944,8 @@ where
         }
     }
 
+    #[cfg(feature = "verif_hooks")]
+    crate::verif::hit(crate::verif::Point::LcFinalPublish);
     // if we have still buffered lcs we have to make them valid now: (rule#1)
     let mut nr_lcs_to_update = buffered_lcs.len();
     for vs in ecu_map.values() {
@@ -940,6 +968,8 @@ where
     // if we have buffered msgs we have to output them now:
     for m in buffered_msgs.into_iter() {
         mark_lc_id_to_refresh(m.lifecycle, &mut lcs_to_refresh);
+        #[cfg(feature = "verif_hooks")]
+        { crate::verif::hit(crate::verif::Point::LcOutFinalFlush); crate::verif::pause(crate::verif::Point::LcOutFinalFlush); }
         if let Err(e) = outflow(m) {
             println!(
                 "parse_lifecycles_buffered_from_stream .send 4 got err={}",
